@@ -156,7 +156,12 @@ pub fn write_replay<C: Serialize>(id: &str, case: &C, note: &str, expected: &str
         // never rewrite a committed reproduction (its note / expectation are part of the record)
         return path.to_string_lossy().to_string();
     }
-    let rf = ReplayFile { property: id.to_string(), expected: expected.to_string(), note: note.to_string(), case: v };
+    let rf = ReplayFile {
+        property: id.to_string(),
+        expected: expected.to_string(),
+        note: note.to_string(),
+        case: v,
+    };
     let _ = std::fs::write(&path, serde_json::to_vec_pretty(&rf).unwrap());
     path.to_string_lossy().to_string()
 }
@@ -167,7 +172,13 @@ struct CurFile {
 impl CurFile {
     const SIZE: usize = 1 << 20;
     fn open(path: &Path) -> Option<CurFile> {
-        let f = std::fs::OpenOptions::new().read(true).write(true).create(true).truncate(true).open(path).ok()?;
+        let f = std::fs::OpenOptions::new()
+            .read(true)
+            .write(true)
+            .create(true)
+            .truncate(true)
+            .open(path)
+            .ok()?;
         f.set_len(Self::SIZE as u64).ok()?;
         let map = unsafe { memmap2::MmapMut::map_mut(&f).ok()? };
         Some(CurFile { map })
@@ -199,21 +210,39 @@ pub fn silence_panics() {
 }
 
 /// One worker: runs `cases` generated cases with its own seed.
-pub fn worker<P: Prop>(tier: Tier, seed: u64, idx: usize, seed_idx: usize, cases: u64, outdir: &Path, profile: &str) {
+pub fn worker<P: Prop>(
+    tier: Tier,
+    seed: u64,
+    idx: usize,
+    seed_idx: usize,
+    cases: u64,
+    outdir: &Path,
+    profile: &str,
+) {
     silence_panics();
     let t0 = Instant::now();
     let known: Vec<String> = open_sigs(P::ID).into_iter().map(|f| f.signature).collect();
     let cur = RefCell::new(CurFile::open(&outdir.join(format!("cur-{idx}"))));
-    let stats = RefCell::new(WorkerResult { idx, profile: profile.to_string(), ..Default::default() });
+    let stats = RefCell::new(WorkerResult {
+        idx,
+        profile: profile.to_string(),
+        ..Default::default()
+    });
     let nt: RefCell<HashSet<u64>> = RefCell::new(HashSet::new());
     let frozen = RefCell::new(false);
     let first_fail: RefCell<Option<Viol>> = RefCell::new(None);
-    let wseed = splitmix(seed ^ splitmix(fnv(P::ID.as_bytes()) ^ (seed_idx as u64).wrapping_mul(0xA24BAED4963EE407)));
+    let wseed = splitmix(
+        seed ^ splitmix(fnv(P::ID.as_bytes()) ^ (seed_idx as u64).wrapping_mul(0xA24BAED4963EE407)),
+    );
     let cfg = Config {
         cases: cases.min(u32::MAX as u64) as u32,
         rng_seed: RngSeed::Fixed(wseed),
         failure_persistence: None,
-        max_shrink_iters: if tier == Tier::Quick { P::SHRINK_ITERS } else { P::SHRINK_ITERS * 3 },
+        max_shrink_iters: if tier == Tier::Quick {
+            P::SHRINK_ITERS
+        } else {
+            P::SHRINK_ITERS * 3
+        },
         max_global_rejects: 1 << 20,
         ..Config::default()
     };
@@ -221,12 +250,18 @@ pub fn worker<P: Prop>(tier: Tier, seed: u64, idx: usize, seed_idx: usize, cases
     let case_started = std::sync::Arc::new(std::sync::atomic::AtomicU64::new(0));
     {
         let cs = case_started.clone();
-        let limit: u64 = std::env::var("RV_CASE_TIMEOUT_S").ok().and_then(|s| s.parse().ok()).unwrap_or(20);
+        let limit: u64 = std::env::var("RV_CASE_TIMEOUT_S")
+            .ok()
+            .and_then(|s| s.parse().ok())
+            .unwrap_or(20);
         std::thread::spawn(move || loop {
             std::thread::sleep(std::time::Duration::from_millis(500));
             let st = cs.load(std::sync::atomic::Ordering::Relaxed);
             if st != 0 {
-                let now = std::time::SystemTime::now().duration_since(std::time::UNIX_EPOCH).map(|d| d.as_secs()).unwrap_or(0);
+                let now = std::time::SystemTime::now()
+                    .duration_since(std::time::UNIX_EPOCH)
+                    .map(|d| d.as_secs())
+                    .unwrap_or(0);
                 if now > st + limit {
                     std::process::exit(3);
                 }
@@ -240,12 +275,30 @@ pub fn worker<P: Prop>(tier: Tier, seed: u64, idx: usize, seed_idx: usize, cases
         if let Some(c) = cur.borrow_mut().as_mut() {
             c.put(&body);
         }
-        case_started.store(std::time::SystemTime::now().duration_since(std::time::UNIX_EPOCH).map(|d| d.as_secs()).unwrap_or(0), std::sync::atomic::Ordering::Relaxed);
+        case_started.store(
+            std::time::SystemTime::now()
+                .duration_since(std::time::UNIX_EPOCH)
+                .map(|d| d.as_secs())
+                .unwrap_or(0),
+            std::sync::atomic::Ordering::Relaxed,
+        );
         let rep = match std::panic::catch_unwind(std::panic::AssertUnwindSafe(|| P::run(&case))) {
             Ok(r) => r,
             Err(p) => {
-                let m = p.downcast_ref::<&str>().map(|s| s.to_string()).or_else(|| p.downcast_ref::<String>().cloned()).unwrap_or_default();
-                CaseReport { nontrivial: false, classes: BTreeSet::new(), viol: Some(Viol { prop: P::ID, sig: "panic/unguarded".into(), msg: format!("panic outside a guarded call: {m}") }) }
+                let m = p
+                    .downcast_ref::<&str>()
+                    .map(|s| s.to_string())
+                    .or_else(|| p.downcast_ref::<String>().cloned())
+                    .unwrap_or_default();
+                CaseReport {
+                    nontrivial: false,
+                    classes: BTreeSet::new(),
+                    viol: Some(Viol {
+                        prop: P::ID,
+                        sig: "panic/unguarded".into(),
+                        msg: format!("panic outside a guarded call: {m}"),
+                    }),
+                }
             }
         };
         let is_frozen = *frozen.borrow();
@@ -273,13 +326,35 @@ pub fn worker<P: Prop>(tier: Tier, seed: u64, idx: usize, seed_idx: usize, cases
                         *st.foreign.entry(k.clone()).or_insert(0) += 1;
                         // triage aid (never used by a registered command): RV_KEEP_FOREIGN=<dir> keeps the first case of
                         // each kind as a replay file of the property the failed predicate belongs to
-                        if let (Ok(dir), false) = (std::env::var("RV_KEEP_FOREIGN"), st.foreign_examples.contains_key(&k)) {
+                        if let (Ok(dir), false) = (
+                            std::env::var("RV_KEEP_FOREIGN"),
+                            st.foreign_examples.contains_key(&k),
+                        ) {
                             let owner = v.prop.split('|').next().unwrap_or(v.prop).to_string();
-                            let rf = ReplayFile { property: owner.clone(), expected: "hold".into(), note: format!("foreign failure seen by the {} check: {} {}", P::ID, v.sig, v.msg), case: serde_json::to_value(&case).unwrap() };
+                            let rf = ReplayFile {
+                                property: owner.clone(),
+                                expected: "hold".into(),
+                                note: format!(
+                                    "foreign failure seen by the {} check: {} {}",
+                                    P::ID,
+                                    v.sig,
+                                    v.msg
+                                ),
+                                case: serde_json::to_value(&case).unwrap(),
+                            };
                             let _ = std::fs::create_dir_all(&dir);
-                            let _ = std::fs::write(Path::new(&dir).join(format!("{owner}-{}-{:016x}.json", v.sig.replace('/', "_"), fnv(&body))), serde_json::to_vec_pretty(&rf).unwrap());
+                            let _ = std::fs::write(
+                                Path::new(&dir).join(format!(
+                                    "{owner}-{}-{:016x}.json",
+                                    v.sig.replace('/', "_"),
+                                    fnv(&body)
+                                )),
+                                serde_json::to_vec_pretty(&rf).unwrap(),
+                            );
                         }
-                        st.foreign_examples.entry(k).or_insert_with(|| v.msg.clone());
+                        st.foreign_examples
+                            .entry(k)
+                            .or_insert_with(|| v.msg.clone());
                     }
                     return Ok(());
                 }
@@ -322,23 +397,37 @@ pub fn worker<P: Prop>(tier: Tier, seed: u64, idx: usize, seed_idx: usize, cases
                 // re-run the minimal case to get its own message
                 let rep = P::run(&case);
                 let msg = rep.viol.map(|v| v.msg).unwrap_or(msg);
-                let path = write_replay(P::ID, &case, &format!("{sig}: {msg} [profile {profile}]"), "hold");
-                out.violation = Some(ViolationOut { sig, msg, replay: path });
+                let path = write_replay(
+                    P::ID,
+                    &case,
+                    &format!("{sig}: {msg} [profile {profile}]"),
+                    "hold",
+                );
+                out.violation = Some(ViolationOut {
+                    sig,
+                    msg,
+                    replay: path,
+                });
             }
             TestError::Abort(r) => {
                 out.violation = None;
-                out.foreign.insert(format!("runner-abort:{}", r.message()), 1);
+                out.foreign
+                    .insert(format!("runner-abort:{}", r.message()), 1);
             }
         }
     }
     out.wall_s = t0.elapsed().as_secs_f64();
-    let _ = std::fs::write(outdir.join(format!("res-{idx}.json")), serde_json::to_vec(&out).unwrap());
+    let _ = std::fs::write(
+        outdir.join(format!("res-{idx}.json")),
+        serde_json::to_vec(&out).unwrap(),
+    );
     let _ = std::fs::remove_dir_all(crate::enga::scratch_dir());
 }
 
 /// Runs one saved case in-process. Returns the violation tagged with the property, if any.
 pub fn replay_one<P: Prop>(v: &serde_json::Value) -> Result<Option<Viol>, String> {
-    let case: P::Case = serde_json::from_value(v.clone()).map_err(|e| format!("cannot decode case: {e}"))?;
+    let case: P::Case =
+        serde_json::from_value(v.clone()).map_err(|e| format!("cannot decode case: {e}"))?;
     let rep = P::run(&case);
     let _ = std::fs::remove_dir_all(crate::enga::scratch_dir());
     Ok(rep.viol)
@@ -346,7 +435,10 @@ pub fn replay_one<P: Prop>(v: &serde_json::Value) -> Result<Option<Viol>, String
 
 pub fn simplify_one<P: Prop>(v: &serde_json::Value) -> Vec<serde_json::Value> {
     match serde_json::from_value::<P::Case>(v.clone()) {
-        Ok(c) => P::simplify(&c).into_iter().map(|c| serde_json::to_value(c).unwrap()).collect(),
+        Ok(c) => P::simplify(&c)
+            .into_iter()
+            .map(|c| serde_json::to_value(c).unwrap())
+            .collect(),
         Err(_) => vec![],
     }
 }
@@ -361,7 +453,14 @@ pub struct PropInfo {
 }
 
 pub fn info<P: Prop>(tier: Tier) -> PropInfo {
-    PropInfo { id: P::ID, level: P::LEVEL, profiles: P::PROFILES, cases: P::cases(tier), rule: P::rule(), assumptions: P::assumptions() }
+    PropInfo {
+        id: P::ID,
+        level: P::LEVEL,
+        profiles: P::PROFILES,
+        cases: P::cases(tier),
+        rule: P::rule(),
+        assumptions: P::assumptions(),
+    }
 }
 
 fn sibling_binary(profile: &str) -> PathBuf {
@@ -382,7 +481,14 @@ pub enum ChildOutcome {
 /// Runs `rv replay <file>` in a child so that a crash is data.
 pub fn replay_in_child(profile: &str, file: &Path, timeout_s: u64) -> ChildOutcome {
     use std::process::{Command, Stdio};
-    let mut child = match Command::new(sibling_binary(profile)).arg("replay").arg(file).arg("--quiet").stdout(Stdio::piped()).stderr(Stdio::null()).spawn() {
+    let mut child = match Command::new(sibling_binary(profile))
+        .arg("replay")
+        .arg(file)
+        .arg("--quiet")
+        .stdout(Stdio::piped())
+        .stderr(Stdio::null())
+        .spawn()
+    {
         Ok(c) => c,
         Err(e) => return ChildOutcome::Crashed(format!("spawn failed: {e}")),
     };
@@ -427,13 +533,21 @@ pub struct SupArgs {
 }
 
 /// Supervisor: returns the process exit code.
-pub fn supervise(pi: PropInfo, args: SupArgs, replay_files: Vec<PathBuf>, simplify: &dyn Fn(&serde_json::Value) -> Vec<serde_json::Value>) -> (i32, serde_json::Value) {
+pub fn supervise(
+    pi: PropInfo,
+    args: SupArgs,
+    replay_files: Vec<PathBuf>,
+    simplify: &dyn Fn(&serde_json::Value) -> Vec<serde_json::Value>,
+) -> (i32, serde_json::Value) {
     use std::process::{Command, Stdio};
     let t0 = Instant::now();
     let id = pi.id;
     let findings = open_sigs(id);
     for f in &findings {
-        println!("KNOWN-FINDING: property={} {} [{}]", id, f.what, f.signature);
+        println!(
+            "KNOWN-FINDING: property={} {} [{}]",
+            id, f.what, f.signature
+        );
     }
     let outdir = crate::enga::scratch_dir().join("sup");
     let _ = std::fs::create_dir_all(&outdir);
@@ -443,7 +557,9 @@ pub fn supervise(pi: PropInfo, args: SupArgs, replay_files: Vec<PathBuf>, simpli
     let mut replays_run = 0u64;
     for f in &replay_files {
         let Ok(b) = std::fs::read(f) else { continue };
-        let Ok(rf) = serde_json::from_slice::<ReplayFile>(&b) else { continue };
+        let Ok(rf) = serde_json::from_slice::<ReplayFile>(&b) else {
+            continue;
+        };
         if rf.property != id {
             continue;
         }
@@ -453,19 +569,34 @@ pub fn supervise(pi: PropInfo, args: SupArgs, replay_files: Vec<PathBuf>, simpli
                 ChildOutcome::Held(_) => {}
                 ChildOutcome::Violation(out) => {
                     // a replay of an open known finding is expected to fail with that signature
-                    let known = findings.iter().any(|k| out.contains(&format!("sig={}", k.signature)));
+                    let known = findings
+                        .iter()
+                        .any(|k| out.contains(&format!("sig={}", k.signature)));
                     if !known {
-                        violations.push(("replay".into(), out.lines().next().unwrap_or("").to_string(), f.to_string_lossy().to_string()));
+                        violations.push((
+                            "replay".into(),
+                            out.lines().next().unwrap_or("").to_string(),
+                            f.to_string_lossy().to_string(),
+                        ));
                     }
                 }
                 ChildOutcome::Crashed(how) => {
-                    let known = findings.iter().any(|k| k.signature.starts_with("crash") && rf.expected.contains(&k.signature));
+                    let known = findings.iter().any(|k| {
+                        k.signature.starts_with("crash") && rf.expected.contains(&k.signature)
+                    });
                     if !known {
-                        violations.push((format!("crash/{how}"), format!("replay {} died: {how}", f.display()), f.to_string_lossy().to_string()));
+                        violations.push((
+                            format!("crash/{how}"),
+                            format!("replay {} died: {how}", f.display()),
+                            f.to_string_lossy().to_string(),
+                        ));
                     }
                 }
                 ChildOutcome::Other(c) => {
-                    eprintln!("replay {} exited with code {c} (infrastructure)", f.display());
+                    eprintln!(
+                        "replay {} exited with code {c} (infrastructure)",
+                        f.display()
+                    );
                     return (2, serde_json::Value::Null);
                 }
             }
@@ -483,13 +614,30 @@ pub fn supervise(pi: PropInfo, args: SupArgs, replay_files: Vec<PathBuf>, simpli
         let seed_idx = w / nprof;
         let bin = sibling_binary(profile);
         if !bin.exists() {
-            eprintln!("missing binary {} (build profile {profile} first)", bin.display());
+            eprintln!(
+                "missing binary {} (build profile {profile} first)",
+                bin.display()
+            );
             return (2, serde_json::Value::Null);
         }
         // the unoptimised build runs the same generator at a sixteenth of the case count (it is that much slower)
-        let per_p = if profile == "unopt" { (per / 16).max(1) } else { per };
+        let per_p = if profile == "unopt" {
+            (per / 16).max(1)
+        } else {
+            per
+        };
         let child = Command::new(bin)
-            .args(["worker", id, args.tier.name(), &args.seed.to_string(), &w.to_string(), &seed_idx.to_string(), &per_p.to_string(), outdir.to_str().unwrap(), profile])
+            .args([
+                "worker",
+                id,
+                args.tier.name(),
+                &args.seed.to_string(),
+                &w.to_string(),
+                &seed_idx.to_string(),
+                &per_p.to_string(),
+                outdir.to_str().unwrap(),
+                profile,
+            ])
             .stdout(Stdio::null())
             .stderr(Stdio::inherit())
             .spawn();
@@ -501,7 +649,14 @@ pub fn supervise(pi: PropInfo, args: SupArgs, replay_files: Vec<PathBuf>, simpli
             }
         }
     }
-    let watchdog_s: u64 = std::env::var("RV_WATCHDOG_S").ok().and_then(|s| s.parse().ok()).unwrap_or(if args.tier == Tier::Quick { 900 } else { 6 * 3600 });
+    let watchdog_s: u64 = std::env::var("RV_WATCHDOG_S")
+        .ok()
+        .and_then(|s| s.parse().ok())
+        .unwrap_or(if args.tier == Tier::Quick {
+            900
+        } else {
+            6 * 3600
+        });
     let mut results: Vec<WorkerResult> = Vec::new();
     let mut crashed: Vec<(usize, &str, String)> = Vec::new();
     let mut timed_out: Vec<(usize, &str)> = Vec::new();
@@ -544,11 +699,19 @@ pub fn supervise(pi: PropInfo, args: SupArgs, replay_files: Vec<PathBuf>, simpli
     for (w, profile) in &timed_out {
         infra = true;
         if let Some(body) = read_cur(&outdir.join(format!("cur-{w}"))) {
-            let dir = Path::new(VERIF).join("harness").join("target").join("timeouts");
+            let dir = Path::new(VERIF)
+                .join("harness")
+                .join("target")
+                .join("timeouts");
             let _ = std::fs::create_dir_all(&dir);
             let f = dir.join(format!("{id}-{:016x}.json", fnv(&body)));
             if let Ok(case) = serde_json::from_slice::<serde_json::Value>(&body) {
-                let rf = ReplayFile { property: id.to_string(), expected: "hold".into(), note: format!("case did not finish within the watchdog [profile {profile}]"), case };
+                let rf = ReplayFile {
+                    property: id.to_string(),
+                    expected: "hold".into(),
+                    note: format!("case did not finish within the watchdog [profile {profile}]"),
+                    case,
+                };
                 let _ = std::fs::write(&f, serde_json::to_vec(&rf).unwrap());
                 eprintln!("worker {w} [{profile}] was stopped by the watchdog; the case it was running is in {}", f.display());
             }
@@ -567,7 +730,12 @@ pub fn supervise(pi: PropInfo, args: SupArgs, replay_files: Vec<PathBuf>, simpli
         };
         let tmp = outdir.join(format!("crash-{w}.json"));
         let write_tmp = |c: &serde_json::Value| {
-            let rf = ReplayFile { property: id.to_string(), expected: "hold".into(), note: format!("worker died: {how} [profile {profile}]"), case: c.clone() };
+            let rf = ReplayFile {
+                property: id.to_string(),
+                expected: "hold".into(),
+                note: format!("worker died: {how} [profile {profile}]"),
+                case: c.clone(),
+            };
             let _ = std::fs::write(&tmp, serde_json::to_vec(&rf).unwrap());
         };
         write_tmp(&case);
@@ -581,16 +749,34 @@ pub fn supervise(pi: PropInfo, args: SupArgs, replay_files: Vec<PathBuf>, simpli
         if !bad(&first) {
             if let ChildOutcome::Violation(out) = first {
                 // deterministic as a violation rather than a crash: still a failing input
-                let known = findings.iter().any(|k| out.contains(&format!("sig={}", k.signature)));
+                let known = findings
+                    .iter()
+                    .any(|k| out.contains(&format!("sig={}", k.signature)));
                 if !known {
                     // the child's own VIOLATION line names a scratch file; report its `sig=` line instead
-                    let what = out.lines().find(|l| l.contains("sig=")).unwrap_or("").trim().to_string();
-                    let path = write_replay(id, &case, &format!("worker died ({how}); replay reports: {what}"), "hold");
-                    violations.push((format!("crash/{how}"), format!("replayed alone: {what}"), path));
+                    let what = out
+                        .lines()
+                        .find(|l| l.contains("sig="))
+                        .unwrap_or("")
+                        .trim()
+                        .to_string();
+                    let path = write_replay(
+                        id,
+                        &case,
+                        &format!("worker died ({how}); replay reports: {what}"),
+                        "hold",
+                    );
+                    violations.push((
+                        format!("crash/{how}"),
+                        format!("replayed alone: {what}"),
+                        path,
+                    ));
                 }
                 continue;
             }
-            eprintln!("worker {w} died ({how}) but its case does not reproduce alone: not deterministic");
+            eprintln!(
+                "worker {w} died ({how}) but its case does not reproduce alone: not deterministic"
+            );
             infra = true;
             continue;
         }
@@ -605,7 +791,8 @@ pub fn supervise(pi: PropInfo, args: SupArgs, replay_files: Vec<PathBuf>, simpli
                 }
                 budget -= 1;
                 write_tmp(&cand);
-                if matches!(replay_in_child(profile, &tmp, 20), ChildOutcome::Crashed(ref h) if h != "hang") {
+                if matches!(replay_in_child(profile, &tmp, 20), ChildOutcome::Crashed(ref h) if h != "hang")
+                {
                     case = cand;
                     progress = true;
                     break;
@@ -616,8 +803,17 @@ pub fn supervise(pi: PropInfo, args: SupArgs, replay_files: Vec<PathBuf>, simpli
         if findings.iter().any(|k| k.signature == sig) {
             continue;
         }
-        let path = write_replay(id, &case, &format!("process died: {how} [profile {profile}]"), "hold");
-        violations.push((sig, format!("the process running this case died: {how}"), path));
+        let path = write_replay(
+            id,
+            &case,
+            &format!("process died: {how} [profile {profile}]"),
+            "hold",
+        );
+        violations.push((
+            sig,
+            format!("the process running this case died: {how}"),
+            path,
+        ));
     }
     for r in &results {
         if let Some(v) = &r.violation {
@@ -649,7 +845,9 @@ pub fn supervise(pi: PropInfo, args: SupArgs, replay_files: Vec<PathBuf>, simpli
             *foreign.entry(k.clone()).or_insert(0) += v;
         }
         for (k, v) in &r.foreign_examples {
-            foreign_examples.entry(k.clone()).or_insert_with(|| v.clone());
+            foreign_examples
+                .entry(k.clone())
+                .or_insert_with(|| v.clone());
         }
         if samples.len() < 3 {
             samples.extend(r.samples.iter().cloned());
@@ -705,7 +903,10 @@ pub fn supervise(pi: PropInfo, args: SupArgs, replay_files: Vec<PathBuf>, simpli
             }
         }
         for (_, _, path) in &violations {
-            if !kept.contains(path) && path.starts_with(&format!("{VERIF}/replays/")) && !replay_files.iter().any(|f| f.to_string_lossy() == *path) {
+            if !kept.contains(path)
+                && path.starts_with(&format!("{VERIF}/replays/"))
+                && !replay_files.iter().any(|f| f.to_string_lossy() == *path)
+            {
                 let _ = std::fs::remove_file(path);
             }
         }
@@ -741,12 +942,24 @@ pub fn fuzz_stage(id: &str, seed: u64, runs_per_job: u64, jobs: u32) -> (i32, se
     let art = scratch.join("art");
     let _ = std::fs::create_dir_all(&corpus);
     let _ = std::fs::create_dir_all(&art);
-    let _ = std::fs::copy(Path::new(VERIF).join("harness").join("Cargo.lock"), fuzz_dir.join("Cargo.lock"));
-    let build = Command::new("cargo").args(["+nightly", "fuzz", "build", "hist"]).current_dir(&fuzz_dir).env("CARGO_NET_OFFLINE", "true").output();
+    let _ = std::fs::copy(
+        Path::new(VERIF).join("harness").join("Cargo.lock"),
+        fuzz_dir.join("Cargo.lock"),
+    );
+    let build = Command::new("cargo")
+        .args(["+nightly", "fuzz", "build", "hist"])
+        .current_dir(&fuzz_dir)
+        .env("CARGO_NET_OFFLINE", "true")
+        .output();
     let ok = matches!(&build, Ok(o) if o.status.success());
     if !ok {
         let why = match build {
-            Ok(o) => String::from_utf8_lossy(&o.stderr).lines().rev().take(5).collect::<Vec<_>>().join(" | "),
+            Ok(o) => String::from_utf8_lossy(&o.stderr)
+                .lines()
+                .rev()
+                .take(5)
+                .collect::<Vec<_>>()
+                .join(" | "),
             Err(e) => e.to_string(),
         };
         eprintln!("fuzz stage unavailable (cargo +nightly fuzz build failed): recorded in evidence, not a verdict");
@@ -774,7 +987,9 @@ pub fn fuzz_stage(id: &str, seed: u64, runs_per_job: u64, jobs: u32) -> (i32, se
         Ok(o) => format!("exit {:?}", o.status.code()),
         Err(e) => format!("spawn failed: {e}"),
     };
-    let mut artifacts: Vec<PathBuf> = std::fs::read_dir(&art).map(|d| d.filter_map(|e| e.ok().map(|e| e.path())).collect()).unwrap_or_default();
+    let mut artifacts: Vec<PathBuf> = std::fs::read_dir(&art)
+        .map(|d| d.filter_map(|e| e.ok().map(|e| e.path())).collect())
+        .unwrap_or_default();
     artifacts.sort();
     let corpus_files = std::fs::read_dir(&corpus).map(|d| d.count()).unwrap_or(0);
     for f in std::fs::read_dir(&fuzz_dir).into_iter().flatten().flatten() {
@@ -787,9 +1002,21 @@ pub fn fuzz_stage(id: &str, seed: u64, runs_per_job: u64, jobs: u32) -> (i32, se
     let mut foreign = 0u64;
     let mut reported: Vec<String> = Vec::new();
     for a in &artifacts {
-        let Ok(bytes) = std::fs::read(a) else { continue };
-        let Some(case) = crate::fuzzdec::decode_case_a(&bytes) else { continue };
-        let path = write_replay(id, &case, &format!("libFuzzer/ASan artifact {}", a.file_name().unwrap().to_string_lossy()), "hold");
+        let Ok(bytes) = std::fs::read(a) else {
+            continue;
+        };
+        let Some(case) = crate::fuzzdec::decode_case_a(&bytes) else {
+            continue;
+        };
+        let path = write_replay(
+            id,
+            &case,
+            &format!(
+                "libFuzzer/ASan artifact {}",
+                a.file_name().unwrap().to_string_lossy()
+            ),
+            "hold",
+        );
         match replay_in_child("checked", Path::new(&path), 60) {
             ChildOutcome::Violation(o) => {
                 println!("VIOLATION property={id} replay={path}");
@@ -799,7 +1026,10 @@ pub fn fuzz_stage(id: &str, seed: u64, runs_per_job: u64, jobs: u32) -> (i32, se
             }
             ChildOutcome::Crashed(how) => {
                 println!("VIOLATION property={id} replay={path}");
-                println!("  sig=crash/{} found by the fuzz stage", how.replace(' ', "-"));
+                println!(
+                    "  sig=crash/{} found by the fuzz stage",
+                    how.replace(' ', "-")
+                );
                 reported.push(path);
                 code = 1;
             }
@@ -811,7 +1041,10 @@ pub fn fuzz_stage(id: &str, seed: u64, runs_per_job: u64, jobs: u32) -> (i32, se
             }
             ChildOutcome::Held(_) => {
                 // fails only in the sanitizer build: an access outside the arena's memory (or a debug assertion)
-                let keep = Path::new(VERIF).join("replays").join(id).join(format!("{}.bin", a.file_name().unwrap().to_string_lossy()));
+                let keep = Path::new(VERIF)
+                    .join("replays")
+                    .join(id)
+                    .join(format!("{}.bin", a.file_name().unwrap().to_string_lossy()));
                 let _ = std::fs::copy(a, &keep);
                 println!("VIOLATION property={id} replay={path}");
                 println!("  sig=fuzz/sanitizer-only the case fails under AddressSanitizer but not in the plain build (raw input kept as {})", keep.display());
